@@ -63,6 +63,14 @@ def gen_pair(rng, tier):
         B[:, 1] = np.maximum(B[:, 1], B[:, 0])
     if rng.random() < 0.15 and m and n:
         A = gen.specialize(rng, A, scale); B = gen.entangle(rng, A, gen.specialize(rng, B, scale))
+    if rng.random() < 0.08 and m and n:
+        # pairs recorded with birth > death (superlevel-set filtrations, the relative part of extended persistence, a negated diagram):
+        # the definition (projections, 1-D transport) does not care on which side of the diagonal a point lies
+        if rng.random() < 0.5:
+            A, B = -A, -B
+        else:
+            fa_ = rng.random(len(A)) < 0.4; fb_ = rng.random(len(B)) < 0.4
+            A[fa_] = A[fa_][:, ::-1]; B[fb_] = B[fb_][:, ::-1]
     sign = str(rng.choice(["pos", "neg", "mixed", "pos"]))
     if sign == "neg":
         s = -float(rng.uniform(3, 30)) * scale
@@ -218,7 +226,8 @@ def run_case(ctx, k, rng):
             c = float(rng.choice([1e-3, 0.5, 2.0, 3.0, 7.3, 1e3]))
             v2 = float(f(A * c, B * c))
             ctx.check("linear scaling", abs(v2 - c * v) <= c * tol(A, B), got=v2, expected=c * v, c=c)
-        else:
+        elif (len(A) == 0 or np.all(A[:, 1] >= A[:, 0])) and (len(B) == 0 or np.all(B[:, 1] >= B[:, 0])):
+            # (the Wasserstein distance charges (d-b)/sqrt 2 for the diagonal: only defined on or above it)
             ctx.ran()
             w1 = float(wasserstein(A, B))
             wt = 1e-7 * sc * (len(A) + len(B) + 1)
